@@ -56,3 +56,18 @@ def find_calls(root: ast.AST, pred) -> List[ast.Call]:
 
 def is_self_call(c: ast.Call, name: str) -> bool:
     return call_name(c) == f"self.{name}"
+
+
+def shadow(chk, src_rule: str, dst_rule: str, fn):
+    """Run another property's rule function `fn(chk)`; keep only its obligations of `src_rule`, recorded under `dst_rule`
+    (obligations of the other property's remaining rules are dropped: they are decided by that property's own check)."""
+    before = len(chk.obligations)
+    fn(chk)
+    new = chk.obligations[before:]
+    del chk.obligations[before:]
+    for o in new:
+        if o.rule == src_rule:
+            o.rule = dst_rule
+            if hasattr(o, "key") and isinstance(getattr(o, "key", None), str):
+                pass
+            chk.obligations.append(o)
